@@ -128,7 +128,7 @@ package iavl
 // yields no read, no value and no proof. A subspace query must likewise read version res.Height: it does NOT
 // (known finding F15: it iterates the working tree).
 //@ func (st *Store) Query(req abci.RequestQuery) (res abci.ResponseQuery)
-//@   props C14
+//@   props C14 C11
 //@   may_panic
 //@   requires tree.cur >= 0
 // the response, proof objects and the KVPair list are freshly built or library-owned: no frame is claimed
@@ -139,3 +139,5 @@ package iavl
 //@   ensures [value] len(req.Data) > 0 && req.Path == "/key" && tree.saved[res.Height] ==> (res.Value == tq.val || len(res.Value) == 0) && (!req.Prove ==> res.Value == tq.val)
 //@   ensures [unloadable] len(req.Data) > 0 && req.Path == "/key" && !tree.saved[res.Height] ==> tq.calls == old(tq.calls) && len(res.Value) == 0 && isnil(res.Proof)
 //@   ensures [subspace-at-height@C14] len(req.Data) > 0 && req.Path == "/subspace" ==> tq.iterver == res.Height
+// C11 (Query never changes state): the tree's version state is untouched by a query
+//@   ensures [readonly] tree.cur == old(tree.cur) && tree.saved == old(tree.saved)
